@@ -19,3 +19,13 @@ package file
 //@   assigns obj(s)
 //@   loop 0 modifies obj(offsets)
 //@   loop 0 body-ensures[rune-units] offset == head(offset) + int32(runes(line)) + 1
+
+// line lookups never index outside lineOffsets, whatever line they are asked for (C04: Bind runs inside
+// Run's recover handler and at the end of Check, where a panic would escape)
+//@ func file.Source.findLineOffset returns off found
+//@   property C04 C13
+//@   mode nopanic
+//@   requires s != nil
+//@   assigns nothing
+//@   ensures[first] line == 1 ==> found && off == 0
+//@   ensures[missing] line < 1 || line > len(s.lineOffsets) && line != 1 ==> !found
